@@ -162,7 +162,32 @@ type Listing struct {
 }
 
 var tsRe = regexp.MustCompile(`^sink-(\d+)\.log$`)
-var extRe = regexp.MustCompile(`^ext-(\d+)\.dat$`)
+var extRe = regexp.MustCompile(`^(?:sink \(copy (\d+)\)\.log|sink_(\d+)\.log|sinkx-(\d+)\.log|ext-(\d+)\.dat)$`)
+
+// ExtName is the name of the k-th file outside the sink's name space: neighbours that share the base name and the
+// extension but not the "<base>-<timestamp><ext>" form (they sort before and after the sink's own files), or
+// something else altogether.
+func ExtName(k int) string {
+	switch k % 4 {
+	case 0:
+		return fmt.Sprintf("sink (copy %d).log", k)
+	case 1:
+		return fmt.Sprintf("sink_%d.log", k)
+	case 2:
+		return fmt.Sprintf("sinkx-%d.log", k)
+	}
+	return fmt.Sprintf("ext-%d.dat", k)
+}
+
+func extIndex(name string) int {
+	for _, g := range extRe.FindStringSubmatch(name)[1:] {
+		if g != "" {
+			k, _ := strconv.Atoi(g)
+			return k
+		}
+	}
+	return -1
+}
 
 func List(dir string, sizes map[int]int) Listing {
 	l := Listing{Ext: map[int][]int{}, Modes: map[string]os.FileMode{}}
@@ -195,7 +220,7 @@ func List(dir string, sizes map[int]int) Listing {
 			n, _ := strconv.ParseInt(tsRe.FindStringSubmatch(name)[1], 10, 64)
 			tss = append(tss, tsf{n, name})
 		case extRe.MatchString(name):
-			k, _ := strconv.Atoi(extRe.FindStringSubmatch(name)[1])
+			k := extIndex(name)
 			ids, err := ParseFile(filepath.Join(dir, name), sizes)
 			if err != nil {
 				l.Err = err.Error()
@@ -305,7 +330,7 @@ func (w *world) apply(a *Action) (ok bool) {
 			}
 			active = l.TsName[len(l.TsName)-1]
 		}
-		err := os.Rename(filepath.Join(w.dir, active), filepath.Join(w.dir, fmt.Sprintf("ext-%d.dat", w.nextExt)))
+		err := os.Rename(filepath.Join(w.dir, active), filepath.Join(w.dir, ExtName(w.nextExt)))
 		w.nextExt++
 		return err == nil
 	case "pause":
